@@ -132,6 +132,23 @@ pub fn run_c11_case(case: &MergeCase, c: &mut Counters, work: &std::path::Path) 
     let mut trace = C01::default();
     let labels = crate::hist::labels_of(&[case.g_ops.clone(), vec![case.merge.clone()]].concat());
     let mut scratch = Counters::default();
+    // interaction: an earlier merge, between two unrelated graphs on this thread, that was rightly
+    // rejected (a forest). It must leave nothing behind that the merge under test could see.
+    if mix(&[case.seed, 0xF411]) % 4 == 0 && case.cap >= 2 {
+        let (n, cap) = (case.n, case.cap);
+        let rejected = crate::rec::guarded(|| {
+            let mut a = new_graph(n, cap);
+            a.add(0);
+            let mut f = new_graph(n, cap);
+            f.add(0);
+            f.add(cap - 1);
+            a.merge(f.as_ref(), 0, 0).is_err()
+        });
+        match rejected {
+            Ok(true) => c.inc("c11.cases-after-an-earlier-rejected-merge"),
+            _ => c.inc("c11.earlier-forest-merge-not-rejected(C12's business)"),
+        }
+    }
     // build the left graph (the trace monitor follows from the start)
     // the twin receives the same calls and later the primitive add/bind/put calls the merge stands for
     let mut twin: Box<dyn crate::shim::Graph> = new_graph(case.n, case.cap);
